@@ -8,6 +8,7 @@ import z3
 
 from . import bridge as bridge_mod
 from . import driver
+from . import cliagree
 from .checks_common import generic_replay
 from .fol import *
 from .sem import Ctx, fol_preds, fol_size, free_vars
@@ -251,6 +252,14 @@ def generate(tier, seed):
     n = 1200 if tier == 'quick' else 60000
     for _ in range(n):
         items.append({'family': 'seeded-compositions', 'formula': rand_compose(rnd, pool, rnd.choice([1, 1, 2]))})
+    cli_formulas = [imp(neg(neg(atom('p'))), atom('p')), neg(neg(atom('p'))), conj(atom('p'), neg(neg(atom('p')))),
+                    forall([var('X')], imp(neg(neg(atom('q', X))), atom('q', X))), exists([var('X')], conj(cmp(X, '=', num(5)), atom('q', X))),
+                    exists([var('X', 'i'), var('Y', 'i')], conj(conj(cmp(ivar('X'), '=', num(1)), cmp(ivar('Y'), '=', ivar('X'))), atom('r', ivar('X'), ivar('Y')))),
+                    disj(atom('p'), neg(atom('p'))), imp(imp(atom('p'), FALSE), FALSE), iff(atom('p'), neg(neg(atom('p')))),
+                    forall([var('X')], rimp(atom('q', X), conj(atom('q', X), TRUE))), conj(imp(atom('p'), atom('q', num(1))), imp(atom('q', num(1)), atom('p'))),
+                    exists([var('X')], forall([var('Y')], disj(atom('r', X, Y), neg(neg(neg(atom('r', X, Y)))))))]
+    for f in cli_formulas:
+        items.append({'family': 'cli-agreement', 'formula': f, 'cli': True})
     return items
 
 
@@ -310,6 +319,9 @@ def dedupe_equalities(f):
 
 def check_item(item):
     b = bridge_mod.get()
+    if item.get('cli'):
+        rs = [cliagree.simplify(b, item['family'], render(item['formula']), item['formula'], p, s) for p in PORTFOLIOS for s in STRATEGIES]
+        return [r for r in rs if r]
     if 'text' in item:
         try:
             f = b.call('parse_formula', Q(item['text']))[0]
@@ -431,7 +443,7 @@ def replay(r):
 
 def describe(tier):
     return {
-        'rule': 'pattern-directed templates (incl. chained comparisons wherever a rewrite expects an equality) for each of the 15 rewrites (holes filled from pools that include shadowed '
+        'rule': 'CLI agreement: 12 formulas x 9 portfolio/strategy pairs through `anthem simplify` must print/save byte for byte what the library call returns; pattern-directed templates (incl. chained comparisons wherever a rewrite expects an equality) for each of the 15 rewrites (holes filled from pools that include shadowed '
                 'and repeated binders, self-referential and mixed-sort equalities, duplicated conjuncts), the string '
                 'literals of the repo\'s simplifier unit tests that parse as formulas, and seeded compositions of the '
                 'templates; each formula is pushed through 3 portfolios x 3 strategies and each of the 15 single rewrites; '
